@@ -210,7 +210,11 @@ class World:
             cls = make_traced(integrator_class(s["cls"]), rec)
             disc = self.discs[s["disc"]]
             if s.get("cmon"):
-                cm = mon_dict(s["cmon"])
+                if spec.get("cmon_shared") and any(c is not None for c in self.cmon):
+                    # callers build one dictionary and hand it to several constructors
+                    cm = [c for c in self.cmon if c is not None][0]
+                else:
+                    cm = mon_dict(s["cmon"])
                 self.cmon.append(cm)
                 self.solvers.append(cls(self.mesh, disc, monitors=cm))
             else:
